@@ -258,6 +258,8 @@ class FamResult:
         self.disagreements += o.disagreements
         self.oracle_failures += o.oracle_failures
         self.errors += o.errors
+        if getattr(o, "retried", 0):
+            self.retried = getattr(self, "retried", 0) + o.retried
         if len(self.samples) < 4:
             self.samples += o.samples[: 4 - len(self.samples)]
 
@@ -280,13 +282,29 @@ def run_family(fam: Family, cases: list[Any], use_model: bool = True) -> FamResu
             res.errors.append({"case": c, "error": f"{type(e).__name__}: {e}", "tb": traceback.format_exc()[-1500:]})
             obs.append(None)
             continue
+        v = fam.oracle(c, o)
+        if v is not None and getattr(fam, "realtime", False):
+            # families that run on the wall clock (loopback sockets, threads): a verdict that does not reproduce when the very
+            # same case is run again, alone, was produced by the machine being busy, not by the code; a defect reproduces
+            import time as _time
+
+            for attempt in range(1):          # one re-run: two failures in a row are reported
+                _time.sleep(0.5)
+                try:
+                    o2 = fam.impl(c)
+                except Exception:  # noqa: BLE001
+                    break
+                v2 = fam.oracle(c, o2)
+                res.retried = getattr(res, "retried", 0) + 1
+                if v2 is None:
+                    o, v = o2, None
+                    break
         obs.append(o)
         res.cases += 1
         k = fam.key(c, o)
         if k is not None:
             res.distribution[k] = res.distribution.get(k, 0) + 1
             res.distinct.add(case_digest(c))
-        v = fam.oracle(c, o)
         if v is not None:
             res.oracle_failures.append({"family": fam.name, "case": c, "impl": o, "signature": v[0], "why": v[1]})
         if len(res.samples) < 3 and k is not None:
